@@ -79,7 +79,7 @@ def search():
     try:
         code = (f"from {name} import f\nfrom typing import Any, Union\n"
                 "def use(u: Union[int, str], w: Union[int, float], a: Any) -> None:\n"
-                "    reveal_type(f(u))\n    reveal_type(f(w))\n    reveal_type(f(a))\n")
+                "    reveal_type(f(u))\n    reveal_type(f(w))\n    reveal_type(f(a))\n    reveal_type(f(a0=u))\n    reveal_type(f(a0=w))\n")
         res = check_code(code)
     finally:
         sys.modules.pop(name, None)
@@ -89,6 +89,10 @@ def search():
         return f"f(Union[int, str]) over overloads int->int, str->str, bytes->bytes: revealed {revealed.get(4)!r}, diagnosed={4 in diagnosed}; expected int | str"
     if 5 not in diagnosed:
         return f"f(Union[int, float]): the float member matches no overload but the call is not diagnosed (revealed {revealed.get(5)!r})"
+    if 7 in diagnosed or set(revealed.get(7, "").replace(" ", "").split("|")) != {"int", "str"}:
+        return f"f(a0=Union[int, str]) (union passed by keyword): revealed {revealed.get(7)!r}, diagnosed={7 in diagnosed}; expected int | str"
+    if 8 not in diagnosed:
+        return f"f(a0=Union[int, float]): the float member matches no overload but the call is not diagnosed (revealed {revealed.get(8)!r})"
     if revealed.get(6) in ("int", "str", "bytes"):
         return f"f(Any) selected a single overload's type {revealed.get(6)!r} although three overloads match"
     return None
